@@ -133,12 +133,22 @@ pub(crate) static mut ADD_OUT_KEYS: [u64; 2] = [0; 2];
 #[cfg(kani)]
 pub(crate) static mut ADD_OUT_COSTS: [i64; 2] = [0; 2];
 
+/// set by the harness: is the item's key already charged? (the real add then takes its update path
+/// and returns (None, false); every output explored here must be one the real add can produce)
+#[cfg(kani)]
+pub(crate) static mut ADD_KEY_RESIDENT: bool = false;
+
 #[cfg(kani)]
 pub(crate) fn add_wiring(key: u64, cost: i64) -> (Option<KVec<PolicyPair>>, bool) {
     unsafe {
         ADD_CALLS += 1;
         ADD_KEY = key;
         ADD_COST = cost;
+        ADD_OUT_N = 0;
+        if ADD_KEY_RESIDENT {
+            ADD_OUT_ADDED = false;
+            return (None, false);
+        }
         let added = nd::any_bool();
         ADD_OUT_ADDED = added;
         ADD_OUT_N = 0;
@@ -150,6 +160,7 @@ pub(crate) fn add_wiring(key: u64, cost: i64) -> (Option<KVec<PolicyPair>>, bool
         let mut i = 0;
         while i < n {
             let k = nd::any_u64();
+            nd::assume(k != key);
             let c = nd::any_i64_in(0, COST_MAX);
             ADD_OUT_KEYS[i] = k;
             ADD_OUT_COSTS[i] = c;
